@@ -1,6 +1,9 @@
 package c18
 
 import (
+	"github.com/smartcontractkit/chainlink-automation/pkg/v3/types"
+	"strings"
+	"runtime"
 	"context"
 	"io"
 	"log"
@@ -44,6 +47,26 @@ func (s *site) hit(name string) {
 
 type sites struct {
 	logs, events, recov, builder, getter, runnable, updater site
+	tg site // the injected UpkeepTypeGetter as called from proposalQueue.Dequeue (a tick goroutine of the final flows)
+}
+
+// typeGetter is the UpkeepTypeGetter handed to the factory: the real one, plus the call site "typegetter" for calls
+// that come from inside the proposal queue's Dequeue
+func (s *sites) typeGetter(id common.UpkeepIdentifier) types.UpkeepType {
+	pcs := make([]uintptr, 12)
+	n := runtime.Callers(2, pcs)
+	frames := runtime.CallersFrames(pcs[:n])
+	for {
+		f, more := frames.Next()
+		if strings.Contains(f.Function, "proposalQueue).Dequeue") {
+			s.tg.hit("typegetter")
+			break
+		}
+		if !more {
+			break
+		}
+	}
+	return simutil.GetUpkeepType(id)
 }
 
 func (s *sites) byName(n string) *site {
@@ -62,6 +85,8 @@ func (s *sites) byName(n string) *site {
 		return &s.runnable
 	case "postprocessor":
 		return &s.updater
+	case "typegetter":
+		return &s.tg
 	}
 	return nil
 }
@@ -208,7 +233,7 @@ func newNode18(t *testing.T, runDelay time.Duration, provDelay ...time.Duration)
 	fac := plugin.NewReportingPluginFactory(
 		nd.Logs, &pEvents{s}, nd.Blocks, &pRecov{s}, &pBuilder{s}, &pGetter{s}, nd.Run,
 		runner.RunnerConfig{Workers: 4, WorkerQueueLength: 100, CacheExpire: 20 * 60e9, CacheClean: 30e9},
-		&RecEncoder{}, simutil.GetUpkeepType, simutil.UpkeepWorkID, &pUpdater{s}, log.New(io.Discard, "", 0),
+		&RecEncoder{}, s.typeGetter, simutil.UpkeepWorkID, &pUpdater{s}, log.New(io.Discard, "", 0),
 	)
 	p, _, err := fac.NewReportingPlugin(context.Background(), ocr3types.ReportingPluginConfig{
 		OracleID: commontypes.OracleID(0), N: 4, F: 1, OffchainConfig: []byte("{}"),
